@@ -882,6 +882,18 @@ namespace bloch::runtime {
         return ambiguous ? nullptr : best;
     }
 
+    // Point the dispatch table at the class's own virtual/override methods. Done once all
+    // members are recorded: the per-name method vectors may reallocate while they grow, so
+    // an element address taken earlier would dangle.
+    static void bindDispatchEntries(RuntimeClass* rc) {
+        for (auto& entry : rc->methods) {
+            for (auto& m : entry.second) {
+                if (m.isVirtual || m.isOverride)
+                    rc->vtable[m.signature] = &m;
+            }
+        }
+    }
+
     void RuntimeEvaluator::buildClassTable(Program& program) {
         m_classTable.clear();
         m_genericTemplates.clear();
@@ -984,25 +996,6 @@ namespace bloch::runtime {
                     m.signature = runtimeSignatureLabel(method->name, m.params);
                     auto& bucket = rc->methods[method->name];
                     bucket.push_back(m);
-                    RuntimeMethod* stored = &bucket.back();
-                    if (stored->isVirtual || stored->isOverride) {
-                        RuntimeMethod* baseMethod = nullptr;
-                        if (rc->base) {
-                            auto it = rc->base->methods.find(method->name);
-                            if (it != rc->base->methods.end()) {
-                                for (auto& cand : it->second) {
-                                    if (cand.signature == stored->signature) {
-                                        baseMethod = &cand;
-                                        break;
-                                    }
-                                }
-                            }
-                        }
-                        rc->vtable[stored->signature] = stored;
-                        if (baseMethod) {
-                            rc->vtable[stored->signature] = stored;
-                        }
-                    }
                 } else if (auto ctor = dynamic_cast<ConstructorDeclaration*>(member.get())) {
                     RuntimeConstructor c;
                     c.decl = ctor;
@@ -1014,6 +1007,7 @@ namespace bloch::runtime {
                     rc->destructorDecl = dtor;
                 }
             }
+            bindDispatchEntries(rc);
             if (rc->staticStorage.size() < rc->staticFields.size())
                 rc->staticStorage.resize(rc->staticFields.size());
         }
@@ -1107,25 +1101,6 @@ namespace bloch::runtime {
                 m.signature = runtimeSignatureLabel(method->name, m.params);
                 auto& bucket = rc->methods[method->name];
                 bucket.push_back(m);
-                RuntimeMethod* stored = &bucket.back();
-                if (stored->isVirtual || stored->isOverride) {
-                    RuntimeMethod* baseMethod = nullptr;
-                    if (rc->base) {
-                        auto it = rc->base->methods.find(method->name);
-                        if (it != rc->base->methods.end()) {
-                            for (auto& cand : it->second) {
-                                if (cand.signature == stored->signature) {
-                                    baseMethod = &cand;
-                                    break;
-                                }
-                            }
-                        }
-                    }
-                    rc->vtable[stored->signature] = stored;
-                    if (baseMethod) {
-                        rc->vtable[stored->signature] = stored;
-                    }
-                }
             } else if (auto ctor = dynamic_cast<ConstructorDeclaration*>(member.get())) {
                 RuntimeConstructor c;
                 c.decl = ctor;
@@ -1138,6 +1113,7 @@ namespace bloch::runtime {
                 rc->destructorDecl = dtor;
             }
         }
+        bindDispatchEntries(rc.get());
         if (rc->staticStorage.size() < rc->staticFields.size())
             rc->staticStorage.resize(rc->staticFields.size());
         m_classTable[key] = rc;
